@@ -34,6 +34,11 @@ def run(ctx: Ctx, chk) -> None:
         check_allocator(ctx, chk, f, V)
     if not done:
         raise AnalysisError("anchor vanished: id request handler")
+    # "the answer is addressed like the request": the reply is constructed with the request's ids (ORDER-ID above);
+    # that only reaches the wire if encoding writes the message's own field values
+    from . import c01
+
+    chk.run_rule(lambda c, k: c01.encid1(c, k, "ENC-ID-1"), ctx)
 
 
 def check_allocator(ctx: Ctx, chk, f, V: str) -> None:
@@ -54,55 +59,59 @@ def check_allocator(ctx: Ctx, chk, f, V: str) -> None:
     if len(la) != 1 or not isinstance(la[0], ast.expr):
         raise AnalysisError(f"C11: `{idv}` is not assigned exactly once in {f.fq}")
     alloc = la[0]
-    # ---- FRESH-1
-    rule = "FRESH-1"
-    chk.rule(rule, "the id handed out is max(registered ids) + c with constant c >= 1 (strictly above every key), or 1 when the registry is empty")
-    chk.instance(rule)
-    key = f"{f.fq}::{idv}"
-    verdict, why = fresh_shape(alloc)
-    if verdict is True:
-        chk.ok(rule, key, f"`{norm(alloc)}`: {why}", ctx.loc(f, alloc))
-    elif verdict is False:
-        chk.refute(rule, key, f"`{idv} = {norm(alloc)}`: {why}", ctx.loc(f, alloc))
+    search = search_shape(ctx, f, alloc)
+    if search is not None:
+        check_search_allocator(ctx, chk, f, g, idv, alloc, store, search, max_id)
     else:
-        raise AnalysisError(f"FRESH-1: allocation `{norm(alloc)}` is not of a recognised shape")
-    # ---- RANGE-1
-    rule = "RANGE-1"
-    chk.rule(rule, f"the too-many-nodes condition is definitely false for ids 1..{max_id} and definitely true for ids >= {max_id + 1}; it raises TooManyNodesError before any registry store or send")
-    tests = [t for t in g.nodes if t.kind == "test" and any(isinstance(x, ast.Name) and x.id == idv for x in ast.walk(t.ast))]
-    raises = [n for n in g.nodes if n.kind == "stmt" and isinstance(n.ast, ast.Raise) and n.ast.exc is not None and norm(n.ast.exc.func if isinstance(n.ast.exc, ast.Call) else n.ast.exc) == "TooManyNodesError"]
-    chk.instance(rule)
-    key = f"{f.fq}::range-check"
-    if not raises:
-        chk.refute(rule, key, f"no TooManyNodesError is raised: ids above {max_id} (255 is the broadcast address) are handed out", f.where)
-    else:
-        r = raises[0]
-        ts = [t for t in tests if g.dominates(t, r)]
-        if len(ts) != 1:
-            raise AnalysisError("RANGE-1: range test not recognised")
-        t = ts[0]
-        iv = interval_truth(ctx, f, t.ast, idv)
-        if iv is None:
-            raise AnalysisError(f"RANGE-1: cannot evaluate `{norm(t.ast)}` over intervals")
-        lo_true, hi_false = iv  # smallest id for which the test is true; largest for which it is false
-        raise_on_true = any(lab == "t" and _leads_to(g, s, r) for s, lab in t.succ)
-        if not raise_on_true:
-            raise AnalysisError("RANGE-1: raise is not on the true branch of the range test")
-        if lo_true == max_id + 1:
-            chk.ok(rule, key, f"`{norm(t.ast)}` is false on [1, {max_id}] and true on [{max_id + 1}, inf)", ctx.loc(f, t.ast))
-        elif lo_true <= max_id:
-            chk.refute(rule, key, f"`{norm(t.ast)}` is already true for id {lo_true}: TooManyNodesError is raised although id {lo_true} (<= {max_id}) is still free above the highest registered id", ctx.loc(f, t.ast))
-        else:
-            chk.refute(rule, key, f"`{norm(t.ast)}` is still false for id {max_id + 1}: an id above {max_id} is handed out", ctx.loc(f, t.ast))
-        # raise precedes every store / send
+        # ---- FRESH-1
+        rule = "FRESH-1"
+        chk.rule(rule, "the id handed out is max(registered ids) + c with constant c >= 1 (strictly above every key), or 1 when the registry is empty")
         chk.instance(rule)
-        store_nodes = g.nodes_of(store)
-        send_nodes = [n for n in g.nodes if n.kind == "stmt" and sb.is_send(n.ast)]
-        early = [n for n in store_nodes + send_nodes if not g.dominates(t, n)]
-        if early:
-            chk.refute(rule, f"{f.fq}::raise-before-effects", f"`{early[0].text()[:60]}` is not dominated by the range check: the registry changes or a reply is written although the request fails", ctx.loc(f, early[0].ast))
+        key = f"{f.fq}::{idv}"
+        verdict, why = fresh_shape(alloc)
+        if verdict is True:
+            chk.ok(rule, key, f"`{norm(alloc)}`: {why}", ctx.loc(f, alloc))
+        elif verdict is False:
+            chk.refute(rule, key, f"`{idv} = {norm(alloc)}`: {why}", ctx.loc(f, alloc))
         else:
-            chk.ok(rule, f"{f.fq}::raise-before-effects", "the range check dominates the registry store and the reply", ctx.loc(f, t.ast))
+            raise AnalysisError(f"FRESH-1: allocation `{norm(alloc)}` is not of a recognised shape")
+        # ---- RANGE-1
+        rule = "RANGE-1"
+        chk.rule(rule, f"the too-many-nodes condition is definitely false for ids 1..{max_id} and definitely true for ids >= {max_id + 1}; it raises TooManyNodesError before any registry store or send")
+        tests = [t for t in g.nodes if t.kind == "test" and any(isinstance(x, ast.Name) and x.id == idv for x in ast.walk(t.ast))]
+        raises = [n for n in g.nodes if n.kind == "stmt" and isinstance(n.ast, ast.Raise) and n.ast.exc is not None and norm(n.ast.exc.func if isinstance(n.ast.exc, ast.Call) else n.ast.exc) == "TooManyNodesError"]
+        chk.instance(rule)
+        key = f"{f.fq}::range-check"
+        if not raises:
+            chk.refute(rule, key, f"no TooManyNodesError is raised: ids above {max_id} (255 is the broadcast address) are handed out", f.where)
+        else:
+            r = raises[0]
+            ts = [t for t in tests if g.dominates(t, r)]
+            if len(ts) != 1:
+                raise AnalysisError("RANGE-1: range test not recognised")
+            t = ts[0]
+            iv = interval_truth(ctx, f, t.ast, idv)
+            if iv is None:
+                raise AnalysisError(f"RANGE-1: cannot evaluate `{norm(t.ast)}` over intervals")
+            lo_true, hi_false = iv  # smallest id for which the test is true; largest for which it is false
+            raise_on_true = any(lab == "t" and _leads_to(g, s, r) for s, lab in t.succ)
+            if not raise_on_true:
+                raise AnalysisError("RANGE-1: raise is not on the true branch of the range test")
+            if lo_true == max_id + 1:
+                chk.ok(rule, key, f"`{norm(t.ast)}` is false on [1, {max_id}] and true on [{max_id + 1}, inf)", ctx.loc(f, t.ast))
+            elif lo_true <= max_id:
+                chk.refute(rule, key, f"`{norm(t.ast)}` is already true for id {lo_true}: TooManyNodesError is raised although id {lo_true} (<= {max_id}) is still free above the highest registered id", ctx.loc(f, t.ast))
+            else:
+                chk.refute(rule, key, f"`{norm(t.ast)}` is still false for id {max_id + 1}: an id above {max_id} is handed out", ctx.loc(f, t.ast))
+            # raise precedes every store / send
+            chk.instance(rule)
+            store_nodes = g.nodes_of(store)
+            send_nodes = [n for n in g.nodes if n.kind == "stmt" and sb.is_send(n.ast)]
+            early = [n for n in store_nodes + send_nodes if not g.dominates(t, n)]
+            if early:
+                chk.refute(rule, f"{f.fq}::raise-before-effects", f"`{early[0].text()[:60]}` is not dominated by the range check: the registry changes or a reply is written although the request fails", ctx.loc(f, early[0].ast))
+            else:
+                chk.ok(rule, f"{f.fq}::raise-before-effects", "the range check dominates the registry store and the reply", ctx.loc(f, t.ast))
     # ---- ORDER-ID
     rule = "ORDER-ID"
     chk.rule(rule, "the placeholder node is stored under the new id before the reply is sent, with no await between reading the registry and that store; the reply is addressed like the request, is an id response and carries str(id)")
@@ -165,6 +174,69 @@ def check_allocator(ctx: Ctx, chk, f, V: str) -> None:
             chk.ok(rule, key, f"reply = Message(In.node_id, In.child_id, In.command, I_ID_RESPONSE, str({idv})) unbuffered", ctx.loc(f, call))
         else:
             chk.refute(rule, key, f"the reply is `{term[:160]}` (buffering {flag}); expected an id response addressed like the request carrying str({idv}), sent unbuffered", ctx.loc(f, call))
+
+
+def search_shape(ctx: Ctx, f, alloc: ast.expr):
+    """`next((i for i in range(a, b) if i not in gateway.nodes)[, default])` -> (a, b, default expr | None, has_filter)."""
+    if not (isinstance(alloc, ast.Call) and isinstance(alloc.func, ast.Name) and alloc.func.id == "next" and 1 <= len(alloc.args) <= 2 and isinstance(alloc.args[0], ast.GeneratorExp)):
+        return None
+    ge = alloc.args[0]
+    if len(ge.generators) != 1 or not isinstance(ge.generators[0].target, ast.Name) or not (isinstance(ge.elt, ast.Name) and ge.elt.id == ge.generators[0].target.id):
+        return None
+    gen = ge.generators[0]
+    it = gen.iter
+    if not (isinstance(it, ast.Call) and isinstance(it.func, ast.Name) and it.func.id == "range" and 1 <= len(it.args) <= 2):
+        return None
+    try:
+        vals = [ctx.folder.plain(ctx.folder.fold(f.module, a)) for a in it.args]
+    except Exception:  # noqa: BLE001
+        return None
+    lo, hi = (0, vals[0]) if len(vals) == 1 else (vals[0], vals[1])
+    v = gen.target.id
+    has_filter = any(isinstance(c, ast.Compare) and len(c.ops) == 1 and isinstance(c.ops[0], ast.NotIn) and norm(c.left) == v and norm(c.comparators[0]) == "gateway.nodes" for c in gen.ifs)
+    return lo, hi, (alloc.args[1] if len(alloc.args) == 2 else None), has_filter
+
+
+def check_search_allocator(ctx: Ctx, chk, f, g: CFG, idv: str, alloc, store, search, max_id: int) -> None:
+    lo, hi, default, has_filter = search
+    rule = "FRESH-1"
+    chk.rule(rule, "the id handed out is max(registered ids) + c with constant c >= 1 (strictly above every key), or 1 when the registry is empty; or the first id of a range that is not a key of the registry")
+    chk.instance(rule)
+    key = f"{f.fq}::{idv}"
+    if has_filter:
+        chk.ok(rule, key, f"`{norm(alloc)[:80]}`: only ids that are not keys of the registry are candidates", ctx.loc(f, alloc))
+    else:
+        chk.refute(rule, key, f"`{idv} = {norm(alloc)[:80]}` does not exclude the ids already in the registry", ctx.loc(f, alloc))
+    rule = "RANGE-1"
+    chk.rule(rule, f"candidates are exactly 1..{max_id}; when none is free the request fails with TooManyNodesError before any registry store or send")
+    chk.instance(rule)
+    key = f"{f.fq}::range-check"
+    if lo < 1 or hi - 1 > max_id:
+        chk.refute(rule, key, f"ids are searched in [{lo}, {hi - 1}]: an id outside 1..{max_id} (0 is the gateway, 255 the broadcast address) can be handed out", ctx.loc(f, alloc))
+    elif hi - 1 < max_id or lo > 1:
+        chk.refute(rule, key, f"ids are searched in [{lo}, {hi - 1}] only: TooManyNodesError is raised although an id in 1..{max_id} is still free", ctx.loc(f, alloc))
+    else:
+        chk.ok(rule, key, f"candidates are range({lo}, {hi})", ctx.loc(f, alloc))
+    chk.instance(rule)
+    key = f"{f.fq}::exhausted"
+    raises = [n for n in g.nodes if n.kind == "stmt" and isinstance(n.ast, ast.Raise) and n.ast.exc is not None and norm(n.ast.exc.func if isinstance(n.ast.exc, ast.Call) else n.ast.exc) == "TooManyNodesError"]
+    if default is None:
+        chk.refute(rule, key, f"`{norm(alloc)[:60]}` has no default: when every id of the range is taken it raises StopIteration (a RuntimeError inside the coroutine), not the too-many-nodes error - a guard that counts registry entries does not prove that a free id exists (0 and 255 may or may not be registered)", ctx.loc(f, alloc))
+        return
+    dflt = norm(default)
+    tests = [t for t in g.nodes if t.kind == "test" and norm(t.ast) in (f"{idv} is {dflt}", f"{idv} == {dflt}", f"not {idv}" if dflt in ("None", "0") else "")]
+    ok = False
+    for t in tests:
+        for r in raises:
+            if any(lab == "t" and _leads_to(g, s_, r) for s_, lab in t.succ):
+                store_nodes = g.nodes_of(store)
+                send_nodes = [n for n in g.nodes if n.kind == "stmt" and sb.is_send(n.ast)]
+                if all(g.dominates(t, n) for n in store_nodes + send_nodes):
+                    ok = True
+    if ok:
+        chk.ok(rule, key, f"`{idv} is {dflt}` -> TooManyNodesError dominates the registry store and the reply", ctx.loc(f, alloc))
+    else:
+        chk.refute(rule, key, f"an exhausted search yields {dflt}, which is not turned into TooManyNodesError before the registry store / the reply", ctx.loc(f, alloc))
 
 
 def _leads_to(g: CFG, start, target) -> bool:
